@@ -41,7 +41,8 @@ Definition ser_chunk_gen (lenient : bool) (s : l2state) (c : chunk) : option (li
       match enc_syms_gen lenient props' None ienc0 es1 prog with
       | None => None
       | Some (ie, es2) =>
-          let unpacked := h_len (es_hist es2) - h_len h1 in
+          (* a lenient encoding stops at an ill-formed symbol: declare one byte more so that the decoder reaches it *)
+          let unpacked := h_len (es_hist es2) - h_len h1 + (if lenient then 1 else 0) in
           let payload := ienc_bytes ie delta in
           let packed := nlen payload in
           if (1 <=? unpacked) && (unpacked <=? 2097152) && (packed <=? 65536) then
